@@ -64,9 +64,15 @@ impl Extractor {
                 let name = utils::hash_to_string(&self.metainfo.piece(end.file_index)) + ".piece";
                 let reader = &mut BufReader::new(File::open(name)?);
 
+                // File which starts in this very piece doesn't start at the piece beginning
+                let begin = match start.file_index == end.file_index {
+                    true => start.byte_index,
+                    false => 0,
+                };
+
                 let mut buffer = vec![0; end.byte_index];
                 reader.read_exact(buffer.as_mut_slice())?;
-                writer.write_all(buffer.as_slice())?;
+                writer.write_all(&buffer[begin..])?;
             }
         }
 
